@@ -27,6 +27,7 @@
 #include "cmi_memutils.h"
 #include "cmi_process.h"
 #include "cmb_resource.h"
+#include "cmi_verif.h"
 
 /*
  * Thread local mempools for assorted small objects.
@@ -118,6 +119,7 @@ static void start_event(void *vp, void *arg)
 
     struct cmb_process *pp = (struct cmb_process *)vp;
     struct cmi_coroutine *cp = (struct cmi_coroutine *)pp;
+    CMI_VERIF_EMIT("Wake.start", 0u, pp, NULL, 0, 0.0);
     cmi_coroutine_start(cp, arg);
 }
 
@@ -297,6 +299,7 @@ static void wakeup_event_time(void *vp, void *arg)
     cmb_assert_debug(vp != NULL);
     struct cmb_process *pp = (struct cmb_process *)vp;
     const int64_t sig = (int64_t)arg;
+    CMI_VERIF_EMIT("Wake.time", 0u, pp, NULL, sig, 0.0);
 
     cmb_logger_info(stdout, "Wakes %s signal %" PRIi64, pp->name, sig);
     cmb_assert_debug(!cmi_slist_is_empty(&(pp->awaits)));
@@ -392,6 +395,7 @@ static void wakeup_event_process(void *vp, void *arg)
 {
     cmb_assert_debug(vp != NULL);
     struct cmb_process *pp = (struct cmb_process *)vp;
+    CMI_VERIF_EMIT("Wake.process", 0u, pp, NULL, (int64_t)arg, 0.0);
 
     cmb_logger_info(stdout, "Wakes %s signal %" PRIi64, pp->name, (int64_t)arg);
     cmb_assert_debug(!cmi_slist_is_empty(&(pp->awaits)));
@@ -633,6 +637,7 @@ static void wakeup_event_interrupt(void *vp, void *arg)
     cmb_assert_debug((int64_t)arg != CMB_PROCESS_SUCCESS);
 
     struct cmb_process *tgt = (struct cmb_process *)vp;
+    CMI_VERIF_EMIT("Wake.interrupt", 0u, tgt, NULL, (int64_t)arg, 0.0);
     cmb_logger_info(stdout, "Interrupts %s signal %" PRIi64,
                     tgt->name, (int64_t)arg);
 
@@ -719,6 +724,7 @@ static void resume_event(void *vp, void *arg)
     cmb_assert_debug(vp != NULL);
     struct cmb_process *pp = (struct cmb_process *)vp;
     const int64_t sig = (int64_t)arg;
+    CMI_VERIF_EMIT("Wake.resume", 0u, pp, NULL, sig, 0.0);
 
     cmb_logger_info(stdout, "Resumes %s signal %" PRIi64, pp->name, sig);
 
